@@ -35,6 +35,7 @@ OBS_RTOL = {"surface_tension": 2e-6, "grand_potential": 1e-5, "interfacial_tensi
 # 4.8e-7 (grand potential), 2.5e-6 (interfacial tension = Omega + pV, a difference of 5x larger numbers), 5.0e-7 (adsorption)
 CROSS_RTOL = 1e-5           # surface tension of one planar system (same box and grid) across initial profiles (tanh / pDGT) AND
                             # specifications (chemical potential / fixed equimolar surface / moles_from_profile); worst seen 2.1e-7
+POST_RTOL = 1e-10           # observables stored by PoreProfile / PlanarInterface vs the same quantity recomputed from the profile they hold
 ENTRY_RTOL = 1e-12          # particle number fixed by an entry point vs integrate_comp of the profile it returns
 TIGHT_TOL = 1e-11           # observables are compared between chains whose last stage has at most this tolerance
 
@@ -61,7 +62,7 @@ def model_calc_bulk(kind, n, rb, z):
 
 
 def stage_key(s):
-    return {"kind": s["kind"], "log": s["log"], "max_iter": s["max_iter"], "tol": s["tol"]}
+    return {"kind": s["kind"], "log": s["log"], "max_iter": s["max_iter"], "tol": s["tol"], "damping": s.get("damping")}
 
 
 def solve_key(s):
@@ -328,6 +329,16 @@ def run(ctx):
                 not_converged.append({"input": key, "result": s["result"], "error": s["error"][:80]})
             continue
         a = s.get("after") or {}
+        # what the wrapper reports after solve_inplace belongs to the profile it holds (any call history, also debug runs)
+        rec = (s["obs"] or {}).get("recomputed") or {}
+        for name, v2 in rec.items():
+            v1 = (s["obs"] or {}).get(name)
+            if not (isinstance(v1, (int, float)) and isinstance(v2, (int, float)) and abs(v1 - v2) <= POST_RTOL * max(abs(v1), abs(v2))):
+                V.violation(ctx, "after a successful solve_inplace the wrapper reports %s = %r, but the profile it holds has %r (%s, chain %s%s)"
+                            % (name, v1, v2, s["system"], s["chain"], "; history: " + s["history"] if s.get("history") else ""),
+                            {"broken": "implementation: observables of the wrapper do not belong to the returned profile (SolveC18 wrapper model: "
+                                       "C18_solve_inplace_observables_belong_to_profile)", "input": dict(key, history=s.get("history", "first solve of a fresh profile")),
+                             "observable": name, "reported": v1, "recomputed_from_returned_profile": v2}, found_input=True)
         # bulk unchanged with the default specification (also for debug runs)
         if s["spec_kind"] == 0:
             for b0, b1 in zip(s["bulk_before"], vec(s["rho_b"])):
@@ -467,7 +478,7 @@ def run(ctx):
         "reduced_temperatures": {"pcsaft propane": impl.get("taus"), "pets argon": impl.get("taus_pets")},
         "tolerances": {"residual_after_vs_tol": "< tol*(1+%g)" % RES_AFTER_SLACK, "bulk_unchanged_rel": BULK_RTOL,
                        "moles": "proved bound * (1+%g) + %g N" % (MOLES_SLACK, MOLES_WALL), "observables_rel": OBS_RTOL, "surface_tension_across_starts_and_specifications_rel": CROSS_RTOL,
-                       "entry_point_particle_number_rel": ENTRY_RTOL,
+                       "entry_point_particle_number_rel": ENTRY_RTOL, "wrapper_observables_vs_recomputed_rel": POST_RTOL,
                        "interval goals": "calc_bulk 1e-13 rel; res_bulk 1e-9 of (|rho_b|+|target|); res_norm 1e-8 rel; moles 1e-12 rel"},
         "worst_observed": worst,
         "observable_comparisons": obs_cmp,
